@@ -7,8 +7,9 @@ import xml.etree.ElementTree as ET
 repo = sys.argv[1] if len(sys.argv) > 1 else '/repo'
 base = json.load(open('/root/.vp/BASELINE.json'))
 want = set(base['stable_pass'])
-out = tempfile.mktemp(suffix='.xml', dir='/verif/.work' if os.path.isdir('/verif/.work') else None)
+out = tempfile.mktemp(suffix='.xml', dir=None)
 env = {k: v for k, v in os.environ.items() if k != 'PYTEZOS_VERIF'}
+env['PYTHONPATH'] = os.path.join(os.path.abspath(repo), 'src')
 subprocess.run(['/venv/bin/python', '-m', 'pytest', '-q', '-p', 'no:cacheprovider', '--timeout=900',
                 '--continue-on-collection-errors', f'--junitxml={out}'], cwd=repo, env=env,
                stdout=subprocess.DEVNULL, stderr=subprocess.DEVNULL)
